@@ -32,21 +32,24 @@ harness/c19.py rather than by proof.
   product of the live scales is the product of the factors divided out so far.
 * `strip_root_exact` / `strip_root_exact_real` -- hence for a completed contraction
   `10 ^ exponent · mantissa = plain result`, with `exponent = Σ log10 f`.
+* `nonzero_result_no_zero_factor`, `check_zero_exit_sound` -- a zero factor forces a zero result.
+* `strip_exact_of_nonzero(_real)` -- **the property at full strength for one contraction** (an
+  unsliced tree, or one slice): result ≠ 0 ⇒ `10 ^ exponent · mantissa = result`.
 * `add_stripped_exact(_real)`, `sum_stripped_exact`, `gather_stripped_exact` -- adding two
   (mantissa, exponent) pairs, reducing over slices and rescaling chunks are exact.
-* `sliced_exact_partial` -- composition: slices contracted with stripping, summed per chunk and rescaled
-  denote the per-chunk sums of the plain slice results.
+* `sliced_exact_partial` -- slices contracted with stripping and summed per chunk denote the sum
+  of the plain slice results, *under the guard that every slice ends without a zero factor*.
+* `sliced_exact_check_zero` -- with `check_zero=True` (repaired `add_maybe_exponent_stripped`) the
+  same without any guard, zero-valued slices included.
 * `magnitude_bound_normalised`, `magnitude_bound_step`, `magnitude_bound_real` -- after every step
   `max|p| = 1`; every entry a step forms is bounded by `K · max|l| · max|r|`; with operands
   bounded by 1e100 and at most 1e100 summed terms nothing exceeds 1e300.
 
-`strip_invariant` needs "no factor is 0".  For an *unsliced* contraction that is no restriction
-of the property (`Props` section "zero factors" below: a zero factor forces a zero result), so
-the property holds at full strength there.  For a *sliced* contraction with the default
-`check_zero=False` it is a genuine restriction: one slice whose value is 0 poisons a non-zero
-total (DESIGN §7 n, known finding) -- `sliced_nan_counterexample` proves this on a concrete
-two-slice network, `sliced_exact_partial` is the statement under the guard that every slice
-has positive factors.
+**Partial / counter-example.**  For a *sliced* contraction with the default `check_zero=False`
+the guard of `sliced_exact_partial` is a genuine restriction of the property: one slice whose
+value is 0 poisons a non-zero total with nan (DESIGN §7 n, known finding) --
+`sliced_nan_counterexample` proves this on a concrete two-slice network.  The gather over chunks
+with zero chunks (`gatherRes`) is modelled and tied by the correspondence but not proved.
 -/
 namespace Cotengra.C19
 open Cotengra.Strip
